@@ -142,7 +142,8 @@ class Spec(DiffSpec):
             c = {"seed": s, "profile": prof, "monitors": [], "kind": kind, "first_reset_seed": s % 1000, "op_mix": {"step": 0.8, "reset": 0.05, "fault": 0.15}, "record_state": True}
             if kind == "a":
                 h = 25 + (i % 3) * 12
-                c.update({"n_ops": h + 25, "mark_at": h, "mark_reset_seed": s % 977, "identity_walk": True})
+                # (0 is a legal seed like any other: every fourth compared episode is seeded with it)
+                c.update({"n_ops": h + 25, "mark_at": h, "mark_reset_seed": 0 if i % 8 == 0 else s % 977, "identity_walk": True})
             else:
                 c.update({"n_ops": 30})
             yield c
